@@ -9,11 +9,11 @@ set_option maxHeartbeats 1000000 in
 theorem tail_locked (cfg : Cfg) (load : Bool) (lr : LoadRes) (s : St) (hg : cfg.golang = false)
     (h : inv cfg s = true) (hl : s.locked = true) :
     (match buildTail cfg load lr s with
-     | (s', none) => inv cfg s' && sessionView s' == sessionView s && s'.hsDone == s.hsDone && s'.hasCache == s.hasCache
+     | (s', none) => (!load || s'.state != .pskAllSet || s'.binderFresh) && inv cfg s' && sessionView s' == sessionView s && s'.hsDone == s.hsDone && s'.hasCache == s.hasCache
                       && s'.status == s.status && s'.tracker == s.tracker && s'.keysHeld == s.keysHeld && s'.sharesFilled == s.sharesFilled
                       && s'.lT == s.lT && s'.lP == s.lP && sameObjs s s' && s'.tRef == s.tRef && s'.pRef == s.pRef
      | (_, some _) => false) = true := by
-  obtain ⟨hasCache, state, locked, tracker, calling, status, tRef, pRef, specT, userT, specP, userP, lT, lP, hsS, hsE, hT, hP, raw, ts, shares, filled, held, done⟩ := s
+  obtain ⟨hasCache, state, locked, tracker, calling, status, tRef, pRef, specT, userT, specP, userP, lT, lP, hsS, hsE, hT, hP, raw, ts, shares, filled, held, done, bfresh⟩ := s
   obtain ⟨golang, custom, cT, cP, skip, disabled⟩ := cfg
   rcases pRef with _ | _ | _ <;> cases state <;> cases load <;> cases disabled <;> cases hasCache <;> cases status <;>
     simp_all [inv, buildTail, applyConfig, uLoadSession, marshal, uApplyPatch, setPskToUConn, finalCheck, okR, failR, R.andThen, uAssert,
@@ -22,7 +22,7 @@ theorem tail_locked (cfg : Cfg) (load : Bool) (lr : LoadRes) (s : St) (hg : cfg.
 /-- a refused or harmless setter / SetSessionCache on a locked connection changes no session field. -/
 theorem setters_locked (cfg : Cfg) (s : St) (op : Op) (hop : isSetter op = true ∨ op = .setCache) (hl : s.locked = true) :
     sessionView (stepR cfg s op).1 = sessionView s := by
-  obtain ⟨hasCache, state, locked, tracker, calling, status, tRef, pRef, specT, userT, specP, userP, lT, lP, hsS, hsE, hT, hP, raw, ts, shares, filled, held, done⟩ := s
+  obtain ⟨hasCache, state, locked, tracker, calling, status, tRef, pRef, specT, userT, specP, userP, lT, lP, hsS, hsE, hT, hP, raw, ts, shares, filled, held, done, bfresh⟩ := s
   simp only at hl; subst hl
   cases op with
   | setCache => cases done <;> simp [stepR, okR, sessionView, St.tObj, St.pObj]
@@ -35,5 +35,6 @@ theorem setters_locked (cfg : Cfg) (s : St) (op : Op) (hop : isSetter op = true 
   | buildNoSession => simp [isSetter] at hop
   | build lr => simp [isSetter] at hop
   | handshake lr => simp [isSetter] at hop
+  | edit => simp [isSetter] at hop
 
 end SessionCtl
